@@ -625,6 +625,9 @@ def compare(scn, var, act, ref, run):
     ncalls = len(act["rec"]["calls"])
     if ref["called"] is None:
         return []
+    if ref.get("ambiguous_union"):
+        run.count("undecided:union-members-parse-differently-or-leave-channel")
+        return []
     if ref["called"] and ncalls == 0:
         diffs.append(("body-skipped-although-inputs-accepted", None))
     if not ref["called"] and ncalls > 0:
@@ -632,8 +635,6 @@ def compare(scn, var, act, ref, run):
     if ncalls > 1:
         diffs.append(("body-ran-more-than-once", ncalls))
     ambiguous = ref.get("ambiguous_union")
-    if ambiguous:
-        run.count("undecided:union-members-parse-differently")
     if ref["called"] and ncalls == 1 and not ambiguous:
         a, r = act["rec"]["calls"][0], ref["rec"]["calls"][0]
         run.count("received_objects_compared")
